@@ -90,7 +90,7 @@ CHECKS["C14"] = (
     "Coq proof (induction over loop fuel) about a hand-written executable model with batch sizes as inputs; exact vm_compute correspondence replaying recorded iterations",
     "Model/Iterative.v: the grow-and-retest loop with arbitrary batch sizes, budget clamp, stop conditions, non-finite guard, failure modes. "
     "Theorems (any sizes, any draws): a normal return evaluated <= budget rows, returns <= n_requested samples, exactly n_requested when enough "
-    "passed, fewer only when the budget is exhausted, every one accepted by the C02 rule against all likelihoods evaluated so far with the last "
+    "passed, fewer only when the budget is exhausted or the code's own next-batch estimate was not positive (a floating-point corner of the growth heuristic, DESIGN 8.3), every one accepted by the C02 rule against all likelihoods evaluated so far with the last "
     "draws; too-small library raises; fuel exhaustion raises; evaluated rows are a prefix of a duplicate-free order; a returned non-JokerSamples "
     "never matches the model. Each run Coq replays the recorded iterations (it_check).",
     "Trusted: as C02; the growth formula itself (a float truncation) is deliberately not modelled -- sizes are read off the recorded uniform() "
